@@ -182,6 +182,11 @@ def open_templates():
     t.append([12001, 11003, 223000, 101002, 31031, 101000, 31001, 223255, 235000, 7001])
     t.append([101000, 31001, 12001, 10004, 7001, 223000, 101002, 31031, 101000, 31001, 223255])     # window slides over different elements
     t.append([101000, 31001, 1001, 12001, 11003, 225000, 101002, 31031, 8024, 101000, 31001, 225255])
+    # the same with a bitmap kept for reuse: equal bits in two subsets designate different positions when the counts differ
+    t.append([101000, 31001, 12001, 10004, 7001, 223000, 236000, 101002, 31031, 101000, 31001, 223255])
+    t.append([102000, 31001, 1001, 2001, 12001, 11003, 222000, 236000, 101002, 31031, 101000, 31001, 33007, 224000, 237000, 8023, 101000, 31001, 224255])
+    t.append([12001, 204005, 31021, 101000, 31001, 11003])          # 204 never cancelled, count of the last replication varies
+    t.append([12001, 221003, 101000, 31001, 10004])                 # 221 not used up when the replication has no repetition
     return t
 
 
